@@ -795,6 +795,13 @@ impl<'a> Interp<'a> {
         if gate(w[10].rotate_left(7), 30) && !book.asks.contains_key(NIL_UUID) {
             id = NIL_UUID.to_string();
         }
+        // an id whose earlier order has left the book may be used again
+        if gate(w[10].rotate_left(19), 120) && self.next_ask > 2 {
+            let old = uuid_of(1 + (w[10] as u64 >> 3) % (self.next_ask - 2));
+            if !book.asks.contains_key(&old) {
+                id = old;
+            }
+        }
         let mut funds = self.escrow(&base, size);
         for fw in fault_words(faulty, fw, w[11]) {
             match pick(fw, 20) {
@@ -882,6 +889,12 @@ impl<'a> Interp<'a> {
         }
         if gate(w[11].rotate_left(7), 30) && !book.bids.contains_key(NIL_UUID) {
             id = NIL_UUID.to_string();
+        }
+        if gate(w[11].rotate_left(19), 120) && self.next_bid > 2 {
+            let old = uuid_of(1 + (w[11] as u64 >> 3) % (self.next_bid - 2));
+            if !book.bids.contains_key(&old) {
+                id = old;
+            }
         }
         let total = match parse(&price) {
             Parsed::Num(p) => p.mul_u128(size).as_u128().unwrap_or(0),
